@@ -35,6 +35,8 @@ Tag(s, o) == [spec |-> s, order |-> o]
 NewSpec(s) == /\ s # cur /\ cur' = s
               /\ mem' = [a \in Arts |-> None]            \* a new process: nothing in memory, files stay
               /\ UNCHANGED <<store, good>>
+NewProcess == /\ mem' = [a \in Arts |-> None]         \* every workflow rule is a job of its own: it knows only what it reads
+              /\ UNCHANGED <<cur, store, good>>
 BuildGrid == /\ mem' = [a \in Arts |-> IF a \in GridArts THEN Tag(cur, "grid") ELSE mem[a]]
              /\ UNCHANGED <<cur, store, good>>
 Write(a) == /\ Have(mem, a) /\ store' = [store EXCEPT ![cur][a] = mem[a]]
@@ -58,7 +60,7 @@ Decompose == /\ (Have(mem, "rate") \/ Have(mem, "msm"))
              /\ mem' = [mem EXCEPT !["eig"] = IF Have(mem, "rate") THEN mem["rate"] ELSE mem["msm"]]
              /\ UNCHANGED <<cur, store, good>>
 (* workflow run_msm: a trajectory of the two molecules (environment), its frames assigned to grid cells, MSM *)
-Simulate == /\ Have(mem, "array") /\ mem' = [mem EXCEPT !["traj"] = Tag(cur, "frames")] /\ UNCHANGED <<cur, store, good>>
+Simulate == /\ mem' = [mem EXCEPT !["traj"] = Tag(cur, "frames")] /\ UNCHANGED <<cur, store, good>>      \* the MD run needs no grid
 Assign == /\ Have(mem, "array") /\ (Have(mem, "traj") \/ Have(mem, "pt"))
           /\ mem' = [mem EXCEPT !["assign"] = mem["array"]]           \* cell indices refer to the order of the array
           /\ UNCHANGED <<cur, store, good>>
@@ -66,7 +68,7 @@ BuildMsm == /\ Have(mem, "assign") /\ mem' = [mem EXCEPT !["msm"] = mem["assign"
 
 FileArts == GridArts \cup {"energy", "pt"}     \* what the workflows persist between rules (rate files behave alike)
 SmallFileArts == {"volumes", "energy"}         \* quick configuration: `FileArts <- SmallFileArts' (the other files behave alike)
-Next == (\E s \in Specs : NewSpec(s)) \/ BuildGrid \/ (\E a \in FileArts : Write(a) \/ Read(a))
+Next == (\E s \in Specs : NewSpec(s)) \/ NewProcess \/ BuildGrid \/ (\E a \in FileArts : Write(a) \/ Read(a))
         \/ GenPT \/ ComputeEnergy \/ BuildRate \/ Decompose \/ Simulate \/ Assign \/ BuildMsm
 Spec == Init /\ [][Next]_vars
 
